@@ -350,7 +350,7 @@ std::string h_hist(const std::string& arg)
 				else if(o.v.vgm != ref.vgm && nd++ < 6) diff += (diff.empty() ? "" : ",") + o.ctx + "/vgm=" + o.v.vgm;
 			}
 		}
-		bool ir = a.songs[i].compare(0, 2, "C:") == 0;
+		bool ir = a.songs[i].compare(0, 2, "C:") == 0 && a.mode != 2;   // the optimizer is not part of the converter model
 		snprintf(buf, sizeof buf, " obs=%zu diff=", obs[i].size());
 		out += " | s" + std::to_string(i) + (ir ? " seq=" : " mseq=") + ref.seq + " mds=" + ref.mds + " vgm=" + ref.vgm + buf + (diff.empty() ? "-" : diff);
 	}
